@@ -8,11 +8,76 @@ Import ListNotations RecordSetNotations.
 Lemma opt_eqb_Z_eq a b : opt_eqb Z.eqb a b = true -> a = b.
 Proof. destruct a, b; cbn; try discriminate; auto. intros H. apply Z.eqb_eq in H. now subst. Qed.
 
+Ltac own_tac HP H :=
+  kind_cases H; split_andb; subst;
+  match goal with E : get ?th (thinst ?s) = Some ?i, E0 : get ?i (insts ?s) = Some ?x |- _ =>
+    intros j9 x9 xo9 Hx9 Hxo9; unfold set_pc in Hx9; autorewrite with sup in Hx9; cbn [fst snd] in Hx9;
+    destruct (N.eqb_spec i j9) as [<-|Hne];
+    [ rewrite E0 in Hx9; cbn in Hx9; injection Hx9 as <-; pose proof (HP _ _ _ E0 Hxo9) as HPx; p2_pre; destruct HPx as [Pcommit Pstop Pexited Palive Pcode Pdecided Prelaunch Pgaveup Prestarts Ppre Pfstopped Prunctx Pendst Pgone Pnostop Pstatus]; constructor
+    | eapply P2_frame; [apply (HP j9 x9 xo9 Hx9 Hxo9)|apply ikeep_refl|apply okeep_refl|apply vrel_vkeep; vrel_tac|apply wkeep_refl] ]
+  end;
+  try match goal with E : pc _ = _ |- _ => rewrite E in * end;
+  try (p2_clause; fail).
+
+
 Section Own2.
 Context (cs : amap pconf).
 
 Lemma P2all_own_wait s o th c s' : P2all s o -> step_own s th (EWaitReturn c) = Some s' -> P2all s' o.
 Proof.
   intros HP H. own_tac HP H.
+  all: apply opt_eqb_Z_eq in E2; destruct (Pexited _ E2) as (A & _ & B); cbn.
+  - congruence.
+  - intros c0 [[= <-]|[=]]. exact A.
+Qed.
+
+Lemma P2all_own_code s o th c s' : P2all s o -> step_own s th (EExitCode c) = Some s' -> P2all s' o.
+Proof.
+  intros HP H. own_tac HP H.
+  cbn. intros c0 [[=]|[= <-]]. apply Pcode. now left.
+Qed.
+
+Lemma P2all_own_decision s o th b s' : Rc cs s o -> P2all s o -> step_own s th (ERestartDecision b) = Some s' -> P2all s' o.
+Proof.
+  intros HRc HP H. own_tac HP H.
+  - cbn. intros c0 [[= <-]|[[=]|[=]]]. split; [apply Pcode; now right|].
+    apply restart_ok_spec in Heqb. destruct Heqb as (_ & Hpol & Hb). unfold Pok. cbn. split; [exact Hpol|].
+    destruct Hb as [Hb|Hb]; [now left|right]. destruct Prestarts as [Pr _]. lia.
+  - cbn. intros c0 [[= <-]|[b0 [=]]]. split; [apply Pcode; now right|].
+    unfold GaveUp. cbn. autorewrite with sup.
+    destruct (f_stopped i2) eqn:Ef; [left; now apply Pfstopped|].
+    destruct (policy_allows (pol (cf i2)) c) eqn:Epol; [|right; now left].
+    right; right. destruct (Nat.eq_dec (maxr (cf i2)) 0) as [Hm|Hm].
+    + exfalso. assert (Hr : restart_ok false (pol (cf i2)) c (maxr (cf i2)) (restarts (vis_of s (nm i2))) = true)
+        by (apply restart_ok_spec; auto). congruence.
+    + split; [exact Hm|]. destruct (le_lt_dec (maxr (cf i2)) (restarts (vis_of s (nm i2)))) as [Hl|Hl]; [exact Hl|].
+      exfalso. assert (Hr : restart_ok false (pol (cf i2)) c (maxr (cf i2)) (restarts (vis_of s (nm i2))) = true)
+        by (apply restart_ok_spec; auto). congruence.
+Qed.
+
+Lemma P2all_own_backoff s o th secs s' : Rc cs s o -> P2all s o -> step_own s th (EBackoffWait secs) = Some s' -> P2all s' o.
+Proof.
+  intros HRc HP H. own_tac HP H.
+  - cbn. intros c0 [[=]|[[=]|[= <-]]]. apply (Pdecided c). right; now left.
+  - destruct (rc_inst _ _ _ HRc _ _ E4) as (xo & _ & _ & Hcf & _).
+    destruct (rc_name _ _ _ HRc _ _ Hcf) as (v & r & Ev & _).
+    unfold set_pc. autorewrite with sup. rewrite vis_of_upd_vis. cbn. rewrite N.eqb_refl, Ev. cbn.
+    rewrite (vis_of_some _ _ _ Ev) in Prestarts. destruct Prestarts as [Pr _]. split; [lia|intros _; lia].
+Qed.
+
+Lemma P2all_own_cancel s o th s' : P2all s o -> step_own s th EBackoffCancelled = Some s' -> P2all s' o.
+Proof.
+  intros HP H. own_tac HP H.
+  cbn. intros c0 [[= <-]|[b0 [=]]]. split; [apply (Pdecided c); right; now right|].
+  left. match goal with Hr : l_runctx _ = true |- _ => destruct (Prunctx Hr) as [A|A]; [exact A|discriminate A] end.
+Qed.
+
+(* all own events that the observer's instance records do not react to *)
+Lemma P2all_own s o th e s' : Rc cs s o -> P2all s o -> oirr e = true -> step_own s th e = Some s' -> P2all s' o.
+Proof.
+  intros HRc HP Hirr H. destruct (own_special e) eqn:Hsp; [|eapply P2all_own_gen; eauto].
+  destruct e; try discriminate Hsp;
+    eauto using P2all_own_wait, P2all_own_code, P2all_own_decision, P2all_own_backoff, P2all_own_cancel.
+Qed.
 (*STOP*)
 End Own2.
